@@ -7,7 +7,7 @@ open Conv
    observable: "out=<events> gst=<n> lines=<n> live=<n> lock=<0|1>" *)
 
 let cmd_code (c : char) : int =
-  match c with 'P' -> 0 | 'F' -> 1 | 'I' -> 2 | 'S' -> 3 | 'R' -> 4 | _ -> failwith "c06: dialogue letter"
+  match c with 'P' -> 0 | 'F' | 'N' | 'M' | 'T' -> 1 | 'I' -> 2 | 'S' -> 3 | 'R' -> 4 | _ -> failwith "c06: dialogue letter"
 
 let label_code (c : char) : int =
   if c = 'r' then 0
@@ -49,7 +49,8 @@ let sched_string (l : nat list) : string =
   List.iter (fun x -> Buffer.add_char b (label_char (int_of_nat x))) l;
   Buffer.contents b
 
-let short_dialogues = [ "PF"; "PIS"; "PFS"; "PRIS"; "PIRS"; "PPF"; "RPFR"; "PSF"; "PISS"; "PFPF"; "PISPF"; "PFRS" ]
+(* F, N, M, T are all finite searches for the model (go depth 1 / with nodes / with mate / movetime) *)
+let short_dialogues = [ "PF"; "PIS"; "PFS"; "PRIS"; "PIRS"; "PPF"; "RPFR"; "PSF"; "PISS"; "PFPF"; "PISPF"; "PFRS"; "PMR"; "PNS"; "PTR" ]
 
 (* splitmix64 on Int64 *)
 let mix (s : int64 ref) : int64 =
@@ -67,7 +68,7 @@ let random_dialogue (s : int64 ref) : string =
   let rounds = 1 + below s 3 in
   for _ = 1 to rounds do
     noise 1; Buffer.add_char b 'P'; noise 1;
-    if below s 2 = 0 then (Buffer.add_char b 'F'; noise 2)
+    if below s 2 = 0 then (Buffer.add_char b "FFNMT".[below s 5]; noise 2)
     else (Buffer.add_char b 'I'; for _ = 1 to below s 2 do Buffer.add_char b 'R' done; Buffer.add_char b 'S'; noise 1)
   done;
   Buffer.contents b
